@@ -73,7 +73,10 @@ def structure_space(N, pairs=False):
                     nested.append(v)
     if not pairs:
         nested = nested[::2]
-    allw = list(dict.fromkeys(list(words) + corpus + variants + nested))
+    # statements followed by an empty block and nothing else (found by the N=4 space; kept in the smaller one too)
+    extra = [w for w in (('NUMBER', 'SEMI', 'LBRACE', 'RBRACE'), ('RETURN', 'SEMI', 'LBRACE', 'RBRACE'), ('ID', 'SEMI', 'LBRACE', 'RBRACE', 'LBRACE', 'RBRACE'),
+                         ('LBRACE', 'ID', 'SEMI', 'LBRACE', 'RBRACE', 'RBRACE'), ('ID', 'SEMI', 'LBRACE', 'RBRACE', 'ID', 'SEMI')) if gx.lr_run(Tb, list(w)) is not None]
+    allw = list(dict.fromkeys(list(words) + corpus + variants + nested + extra))
     texts = []
     unlexable = 0
     from calmjs.parse.parsers.es5 import parse as _parse
